@@ -137,7 +137,11 @@ def run(ctx):
                 'decoder (implementation vs extracted model), the attributes of the nested rendering (implementation vs '
                 'Wire/Nested model), and an independent recomputation of the links from the decoded labels and bitmap bits '
                 '(k-th value -> k-th zero bit among the N elements preceding the operator).')
-    cases = bitmap_templates(ctx, ctx.n(7, 8))
+    # regression witnesses first (D24: explicit 031031 directly after the operator)
+    corpus = [{'ids': [22065, 25113, 232000, 31031, 21160, 232000, 101001, 31031, 232255], 'version': 33, 'edition': 4,
+               'nsub': 1, 'compressed': False, 'forced': '31031=0.0', 'seed': 7, 'maxrep': 3,
+               'features': {'corpus': 1}, 'shared': False}]
+    cases = corpus + bitmap_templates(ctx, ctx.n(7, 8))
     # plus the general generator with bitmaps
     cases += P.build_cases(ctx, ctx.n(120, 3000), gen_kwargs=dict(size=5), nsub_choices=(1, 2), compressed=(False, True),
                            versions=(33,), editions=(4,))
@@ -173,7 +177,11 @@ def run(ctx):
                 if exp is None:
                     ctx.dist['oracle-not-applicable'] += 1
                 elif exp != dict(lk):
-                    ctx.violation({'kind': 'C07-kth-zero', 'case': case, 'subset': si, 'links': lk, 'expected': sorted(exp.items())},
+                    # D24: 031031 listed explicitly right after the operator (no 236000 / replication in between)
+                    explicit = any(a in (222000, 223000, 224000, 225000, 232000) and b == 31031
+                                   for a, b in zip(c['ids'], c['ids'][1:]))
+                    ctx.violation({'kind': 'C07-kth-zero', 'case': case, 'subset': si, 'links': lk, 'expected': sorted(exp.items()),
+                                   'explicit_031031_directly_after_operator': explicit},
                                   'links %r, expected %r for ids=%s' % (lk, sorted(exp.items()), c['ids']))
                 else:
                     ctx.dist['oracle-agrees'] += 1
